@@ -73,6 +73,9 @@ pub fn load_configs_raw(config_files: Vec<PathBuf>, partial_emmyrcs: Option<Vec<
             config_jsons
                 .into_iter()
                 .fold(Value::Object(Default::default()), |mut acc, item| {
+                    // bring every file to the nested spelling first, so that `"a.b"` in one file
+                    // and `{"a": {"b": ..}}` in another are the same setting when merged
+                    let item = FlattenConfigObject::parse(item).to_emmyrc();
                     merge_values(&mut acc, item);
                     acc
                 });
@@ -104,7 +107,7 @@ fn merge_values(base: &mut Value, overlay: Value) {
             }
         }
         (Value::Array(base_array), Value::Array(overlay_array)) => {
-            let mut seen = HashSet::new();
+            let mut seen: HashSet<Value> = base_array.iter().cloned().collect();
             base_array.extend(
                 overlay_array
                     .into_iter()
